@@ -457,3 +457,128 @@ Theorem C06_capture_instance_example :
   = [[Fin 0; Fin 1]; [Fin 5; Fin 7]; [Fin 1; Fin 0]; [Fin 0; Fin 0]; [Fin 2; Fin 0]; [Fin 2; Fin 0]; [Fin 1; Fin 0]; [Fin 1; Fin 0];
      [Fin 1; Fin 1]; [Fin 0; Fin 0]; [Fin 0; Fin 0]].
 Proof. exact KV.Proofs.WaveDriversProofs.capture_inst_example. Qed.
+
+(** STATE TRANSFER over the WHOLE launch (round 4b; closes the gap noted at C06_state_transfer_gpu_instance_partial).
+    WaveSim.s_ppo_to_ppi makes three vectorised passes over its position list (s[0,locs] = s[2,locs]; s[1,locs] = time;
+    s[2,locs] = s[8,locs]); they equal the three stores of ONE position, executed position by position -- no side condition: the
+    position list is a filter of a range, so the stores of different (row, position) pairs commute and every right-hand side
+    is the value at the start. *)
+From KV Require Proofs.WaveStateTransfer.
+Theorem C06_state_transfer_cpu_is_per_position : forall c_locs ppi ppo n_io s_len t L,
+  s_ppo_to_ppi_cpu c_locs ppi ppo n_io s_len t L
+  = fold_left (fun L' y => let L1 := s_wr L' 0 y (s_rd L' 2 y) in let L2 := s_wr L1 1 y t in s_wr L2 2 y (s_rd L2 8 y))
+              (ppo_to_ppi_locs c_locs ppi ppo n_io s_len) L.
+Proof. exact KV.Proofs.WaveStateTransfer.s_ppo_to_ppi_cpu_is_per_position. Qed.
+(** WaveSimCuda.s_ppo_to_ppi -- ppo_to_ppi_gpu over the thread sequence of the TRANSLATED launcher (block (32, 16), out-of-range
+    threads included) -- leaves EVERY lane as WaveSim.s_ppo_to_ppi does, provided no primary-IO position (y < n_io) owns both
+    a PI and a PO slot: then both twins visit exactly the state elements with both slots ... *)
+Theorem C06_state_transfer_cpu_gpu_same_source_model : forall c_locs t ppi ppo n_io s_len st0 (st : list lane),
+  n_io <= s_len -> KV.Proofs.WaveStateTransfer.no_io_both c_locs ppi ppo n_io ->
+  let nsims := List.length st in
+  run_insts (fun x y L => PpoToPpiGpuSrc.inst_src c_locs t ppi ppo (Z.of_nat s_len) (Z.of_nat nsims) (Z.of_nat x) (Z.of_nat y) L)
+            (fst (launch_src (cdiv nsims 32) (cdiv s_len 16) 32 16 st0)) st
+  = map (s_ppo_to_ppi_cpu c_locs ppi ppo n_io s_len t) st.
+Proof. exact KV.Proofs.WaveStateTransfer.state_transfer_launch_is_cpu. Qed.
+(** ... and without that condition (the stated exception C06_state_transfer_io_position_refuted) the two twins still leave the
+    same s[k, y] at EVERY state-element position y >= n_io and the same c / abuf / simctl columns, on every lane: the extra
+    stores of the GPU kernel touch the stimulus rows of primary-IO positions only *)
+Theorem C06_state_transfer_cpu_gpu_state_positions : forall c_locs t ppi ppo n_io s_len st0 (st : list lane),
+  n_io <= s_len ->
+  let nsims := List.length st in
+  let gpu := run_insts (fun x y L => PpoToPpiGpuSrc.inst_src c_locs t ppi ppo (Z.of_nat s_len) (Z.of_nat nsims) (Z.of_nat x) (Z.of_nat y) L)
+                       (fst (launch_src (cdiv nsims 32) (cdiv s_len 16) 32 16 st0)) st in
+  let cpu := map (s_ppo_to_ppi_cpu c_locs ppi ppo n_io s_len t) st in
+  List.length gpu = List.length cpu /\
+  forall l Lg Lc, nth_error gpu l = Some Lg -> nth_error cpu l = Some Lc ->
+    l_c Lg = l_c Lc /\ l_abuf Lg = l_abuf Lc /\ l_ctl0 Lg = l_ctl0 Lc /\ l_mode Lg = l_mode Lc /\
+    forall k y, n_io <= y -> s_rd Lg k (Z.of_nat y) = s_rd Lc k (Z.of_nat y).
+Proof. exact KV.Proofs.WaveStateTransfer.state_transfer_launch_state_positions. Qed.
+(** the hypotheses are satisfiable (two lanes, position 0 owns both slots and is a state element), and the condition is the
+    one that fails in C06_state_transfer_io_position_refuted *)
+Theorem C06_state_transfer_launch_example :
+  KV.Proofs.WaveStateTransfer.no_io_both (so_locs KV.Proofs.WaveDriversProofs.ex_so) 3 5 0 /\
+  run_insts (fun x y L => PpoToPpiGpuSrc.inst_src (so_locs KV.Proofs.WaveDriversProofs.ex_so) (Fin 9) 3 5 2 2 (Z.of_nat x) (Z.of_nat y) L)
+            (fst (launch_src (cdiv 2 32) (cdiv 2 16) 32 16 launch_init_src))
+            [KV.Proofs.WaveDriversProofs.ex_lane; KV.Proofs.WaveStateTransfer.ex_lane2]
+  = map (s_ppo_to_ppi_cpu (so_locs KV.Proofs.WaveDriversProofs.ex_so) 3 5 0 2 (Fin 9))
+        [KV.Proofs.WaveDriversProofs.ex_lane; KV.Proofs.WaveStateTransfer.ex_lane2] /\
+  map l_s (map (s_ppo_to_ppi_cpu (so_locs KV.Proofs.WaveDriversProofs.ex_so) 3 5 0 2 (Fin 9))
+               [KV.Proofs.WaveDriversProofs.ex_lane; KV.Proofs.WaveStateTransfer.ex_lane2])
+  = [KV.Proofs.WaveDriversProofs.ex_rows [Fin 1; Fin 1] [Fin 9; Fin 7] [Fin 1; Fin 0] [Fin 1; Fin 1];
+     KV.Proofs.WaveDriversProofs.ex_rows [Fin 0; Fin 1] [Fin 9; Fin 3] [Fin 0; Fin 1] [Fin 0; Fin 0]].
+Proof. exact KV.Proofs.WaveStateTransfer.state_transfer_launch_example. Qed.
+Theorem C06_state_transfer_io_condition_needed :
+  ~ KV.Proofs.WaveStateTransfer.no_io_both (so_locs KV.Proofs.WaveDriversProofs.ex_so) 3 5 2.
+Proof. exact KV.Proofs.WaveStateTransfer.no_io_both_needed. Qed.
+
+(** WHOLE PROPAGATION, CPU = GPU as ONE theorem (round 4b; closes "instance + launch-order theorems, not composed").
+    Proofs/WaveCProp.v: [gpu_c_prop] = WaveSimCuda.c_prop -- for every (op_start, op_stop) of the level list, wave_eval_gpu run over the
+    thread sequence of the TRANSLATED launcher with grid _grid_dim(sims, op_stop - op_start), block (32, 16), the launcher's
+    coordinate state carried from launch to launch; [cpu_c_prop] = WaveSim.c_prop -- the loop nest of level_eval_cpu per level;
+    k = `sims` (propagation restricted to the first k lanes), a lane is None once a kernel call exceeded its loop bound (never:
+    C03_source_total).  An in-range thread (x, y) IS the loop iteration (op_start + y, x): both call the same translated kernel
+    wrapper on the same ops row -- so NO condition on capacities, tables or states is needed (the side condition out_cap_ok of
+    C06_accumulate_cpu_gpu_same_source_model came from going through the model and is not needed for CPU = GPU). *)
+From KV Require Proofs.WaveCProp.
+Theorem C06_eval_gpu_instance_is_cpu_instance : forall ops locs caps D seed op_start op_stop k x y sim L,
+  x < k -> op_start + y < op_stop ->
+  WaveEvalGpuSrc.inst_src ops locs caps D (Z.of_nat op_start) (Z.of_nat op_stop) 0 (Z.of_nat k) seed (Z.of_nat x) (Z.of_nat y) L
+  = LevelEvalCpuSrc.inst_src ops locs caps D seed sim (Z.of_nat (op_start + y)) L.
+Proof. exact KV.Proofs.WaveCProp.eval_gpu_inst_is_cpu_inst. Qed.
+Theorem C06_c_prop_cpu_gpu_same_source_model : forall ops locs caps D seed k (lv : list (nat * nat)) (st : list (option lane)) lst,
+  KV.Proofs.WaveCProp.gpu_c_prop ops locs caps D seed k lv st lst = KV.Proofs.WaveCProp.cpu_c_prop ops locs caps D seed k lv st.
+Proof. exact KV.Proofs.WaveCProp.c_prop_cpu_gpu_same. Qed.
+(** what the loop nest does to the whole state: lane l < k sees all ops of all levels in order, the other lanes are not touched *)
+Theorem C06_c_prop_lane : forall ops locs caps D seed k lv (st : list (option lane)) l,
+  nth_error (KV.Proofs.WaveCProp.cpu_c_prop ops locs caps D seed k lv st) l
+  = option_map (fun oL => if Nat.ltb l k
+                          then fold_left (fun a i => KV.Proofs.WaveCProp.f_cpu ops locs caps D seed l i a) (KV.Proofs.WaveCProp.level_ops lv) oL
+                          else oL) (nth_error st l).
+Proof. exact KV.Proofs.WaveCProp.cpu_c_prop_lane. Qed.
+(** the level boundaries SimOps publishes (level_stops = level_starts[1:] + [len(ops)]) cut range(len(ops)) into consecutive ranges *)
+Theorem C06_level_ranges_cover : forall stems ops len,
+  KV.Proofs.WaveCProp.level_ops (KV.Proofs.WaveCProp.level_ranges (rev (ls_starts (levelize stems ops len))) (List.length ops))
+  = seq 0 (List.length ops).
+Proof. exact KV.Proofs.WaveCProp.level_ranges_cover. Qed.
+(** FOR EVERY build() RESULT (capacities >= cmin >= 2; WaveSim: cmin = 4): over the published levels both c_prop methods leave every
+    lane l < k as the MODEL steps do in op order -- [lane_c_prop] = Model/WaveSimModel.v [wprop1] with the dataset the lane selects +
+    accumulation, i.e. [w_c_prop] when the selection does not depend on the op (C06_c_prop_model_is_w_c_prop).  The side condition
+    out_cap_ok of the instance theorems holds for every op in every intermediate state: the output regions lie inside the memory and
+    hold >= cmin entries (C03_build_regions_all), and the memory length is invariant under the steps. *)
+Theorem C06_c_prop_build_is_model : forall c caps cmin reuse strip so D seed actrl k (st : list (option lane)) lst,
+  wf_netlist c -> comb_acyclic c -> (2 <= cmin)%N -> KV.Proofs.EndToEnd.gates_known c -> (strip = true -> KV.Proofs.ReuseStrip.forks_ok c) ->
+  build c caps cmin reuse strip = Some so ->
+  Forall (fun oL => forall L, oL = Some L -> List.length (l_c L) = N.to_nat (so_len so)) st ->
+  let T := KV.Proofs.WaveCProp.ops_table so actrl in
+  let lv := KV.Proofs.WaveCProp.level_ranges (so_level_starts so) (List.length (so_ops so)) in
+  let gpu := KV.Proofs.WaveCProp.gpu_c_prop T (so_locs so) (KV.Proofs.WaveDriversProofs.caps_z so) D seed k lv st lst in
+  let cpu := KV.Proofs.WaveCProp.cpu_c_prop T (so_locs so) (KV.Proofs.WaveDriversProofs.caps_z so) D seed k lv st in
+  gpu = cpu /\
+  forall l, nth_error cpu l
+            = option_map (fun oL => if Nat.ltb l k then KV.Proofs.WaveCProp.lane_c_prop so D seed actrl oL else oL) (nth_error st l).
+Proof. exact KV.Proofs.WaveCProp.c_prop_build_is_model. Qed.
+Theorem C06_c_prop_model_is_w_c_prop : forall so D seed actrl delays L,
+  (forall z, KV.Proofs.WaveDriversProofs.lane_sel D seed L z = delays) ->
+  KV.Proofs.WaveCProp.lane_c_prop so D seed actrl (Some L)
+  = option_map (fun st : wmem * list Z => set_abuf (set_c L (fst st)) (snd st)) (w_c_prop so delays actrl (l_c L) (l_abuf L)).
+Proof. exact KV.Proofs.WaveCProp.lane_c_prop_is_w_c_prop. Qed.
+(** non-vacuity: the fork netlist of C06_wave_strip example, strip_forks on, two lanes with different stimuli, propagation restricted
+    to the first lane, launcher state left at (5, 7) by an earlier launch *)
+Theorem C06_c_prop_example :
+  exists so, build KV.Proofs.WaveStrip.StripWaveExample.cxw (repeat 8%N 6) 4%N true true = Some so /\
+    let mk := KV.Proofs.WaveCProp.CPropExample.mk in let actrl3 := KV.Proofs.WaveCProp.CPropExample.actrl3 in
+    let ss := KV.Proofs.WaveSimGlue.WaveGlueExample.ss in let ex := KV.Proofs.WaveSimGlue.WaveGlueExample.ex in
+    let dls := KV.Proofs.WaveSimGlue.WaveGlueExample.dls in let ss1 := KV.Proofs.WaveCProp.CPropExample.ss1 in
+    let st := [Some (mk so ss ex); Some (mk so ss1 [])] in
+    let lv := KV.Proofs.WaveCProp.level_ranges (so_level_starts so) (List.length (so_ops so)) in
+    let T := KV.Proofs.WaveCProp.ops_table so actrl3 in
+    let gpu := KV.Proofs.WaveCProp.gpu_c_prop T (so_locs so) (KV.Proofs.WaveDriversProofs.caps_z so) [dls] 1 1 lv st (5, 7) in
+    let cpu := KV.Proofs.WaveCProp.cpu_c_prop T (so_locs so) (KV.Proofs.WaveDriversProofs.caps_z so) [dls] 1 1 lv st in
+    gpu = cpu /\ lv = [(0, 1); (1, 2); (2, 3)] /\
+    nth_error cpu 0 = Some (KV.Proofs.WaveCProp.lane_c_prop so [dls] 1 actrl3 (Some (mk so ss ex))) /\
+    nth_error cpu 1 = Some (Some (mk so ss1 [])) /\
+    map (option_map l_abuf) cpu = [Some [3; 3; 3]%Z; Some [0; 0; 0]%Z] /\
+    KV.Proofs.WaveCProp.lane_c_prop so [dls] 1 actrl3 (Some (mk so ss ex))
+    = option_map (fun st : wmem * list Z => set_abuf (set_c (mk so ss ex) (fst st)) (snd st))
+                 (w_c_prop so dls actrl3 (l_c (mk so ss ex)) (l_abuf (mk so ss ex))).
+Proof. exact KV.Proofs.WaveCProp.CPropExample.cxw_c_prop. Qed.
